@@ -42,9 +42,21 @@ def view_catalogue(shape, rng, small=True, with_arrays=True, max_views=None):
         views.append(idx)
         idx2 = tuple(np.array([[0, n - 1], [n // 2, 0]]) for n in shape)
         views.append(idx2)
+        # shorter tuples of index arrays, and arrays mixed with slices / integers
+        for k in range(1, d):
+            views.append(tuple(np.array([rng.randrange(n) for _ in range(2)]) for n in shape[:k]))
+            views.append(tuple(np.array([0]) for n in shape[:k]))
+        if d >= 2:
+            views.append((np.array([0, shape[0] - 1]), slice(None, None, 2)))
+            views.append((slice(None), np.array([shape[1] - 1, 0, 0])))
+            views.append((0, np.array([0, shape[1] - 1])))
+        if d >= 3:
+            views.append((np.array([0, shape[0] - 1]), slice(None), np.array([shape[2] - 1, 0])))
         mask = np.zeros(shape, dtype=bool)
         mask.flat[::2] = True
         views.append(mask)
     if max_views and len(views) > max_views:
-        views = views[:4] + rng.sample(views[4:], max_views - 4)
+        arrays = [v for v in views if isinstance(v, np.ndarray) or (isinstance(v, tuple) and any(isinstance(x, np.ndarray) for x in v))]
+        rest = [v for v in views[2:] if not any(v is a for a in arrays)]
+        views = views[:2] + arrays + rng.sample(rest, max(0, min(len(rest), max_views - 2 - len(arrays))))
     return views
